@@ -208,12 +208,17 @@ func corr(a map[string]string) {
 			nb += g.r.Intn(200)
 		}
 		done := 0
+		lastMut := ""
 		for done < nb && !crashed {
 			done++
 			x := g.r.Intn(100)
 			switch {
 			case x < 52:
-				step(g.Mutator())
+				lastMut = g.Mutator()
+				step(lastMut)
+				if !crashed && strings.HasPrefix(lastMut, "addrefund ") && g.r.Chance(1, 3) {
+					step("subrefund 1") // the success path of SubRefund needs a non-zero counter
+				}
 			case x < 63:
 				if len(stack) < 6 && g.r.Chance(1, 2) {
 					// the same kind of mutator on the same target right before and right after the snapshot,
@@ -278,6 +283,9 @@ func corr(a map[string]string) {
 			}
 			if !crashed && g.r.Chance(1, 2) {
 				q := g.Query()
+				if lastMut != "" && g.r.Chance(2, 3) {
+					q = g.QueryFor(lastMut)
+				}
 				step(q)
 				if !crashed && g.r.Chance(1, 4) {
 					step(q) // history: the same read again must answer the same
